@@ -136,7 +136,7 @@ func (s *Session) RmRF(p string) {
 
 // NameLengths are the byte lengths the brief asks for: every residue of the
 // kernel's 16-byte padding, around each multiple of 16, and the maximum.
-var NameLengths = []int{1, 2, 3, 7, 8, 9, 14, 15, 16, 17, 18, 20, 23, 24, 25, 30, 31, 32, 33, 34, 40, 47, 48, 49, 60, 63, 64, 65, 79, 80, 81, 100, 111, 112, 113, 127, 128, 129, 150, 175, 176, 177, 200, 223, 224, 225, 239, 240, 241, 250, 253, 254, 255}
+var NameLengths = []int{1, 2, 3, 4, 5, 6, 7, 8, 9, 10, 11, 12, 13, 14, 15, 16, 17, 18, 20, 21, 23, 24, 25, 27, 30, 31, 32, 33, 34, 40, 47, 48, 49, 60, 63, 64, 65, 79, 80, 81, 100, 111, 112, 113, 127, 128, 129, 150, 175, 176, 177, 200, 223, 224, 225, 239, 240, 241, 250, 253, 254, 255}
 
 // MakeName builds a file name of exactly n bytes in one of several shapes.
 func MakeName(rng *rand.Rand, n int, shape int) string {
